@@ -34,6 +34,10 @@ fn main() {
     }
     install_panic_hook();
     let t0 = Instant::now();
+    if args[1] == "genmax" {
+        genmax();
+        return;
+    }
     if args[1] == "genseeds" {
         genseeds();
         return;
@@ -464,4 +468,66 @@ fn replay(path: &str) -> i32 {
             0
         }
     }
+}
+
+/// One-off generator of seeds/maxmobility.txt: deterministic hill climbing (move one piece to any empty square, keep
+/// the best improvement) from three starting boards, maximising the number of offered actions at the root and after
+/// its first offered steps.  The committed text file is the family; nothing is random.
+fn genmax() {
+    use arimaa_engine_step::*;
+    use refmodel as rm;
+    let score = |b: &rm::Board, gold: bool| -> usize {
+        if !rm::position_legal(b) || !rm::has_rabbit(b, true) || !rm::has_rabbit(b, false) || rm::rabbit_on_goal(b, true) || rm::rabbit_on_goal(b, false) {
+            return 0;
+        }
+        let s = glue::state_from_board(b, gold, 10);
+        let va = s.valid_actions();
+        let mut best = va.len();
+        for a in va.iter().take(12) {
+            best = best.max(s.take_action(a).valid_actions().len());
+        }
+        best
+    };
+    let starts: Vec<String> = std::fs::read_to_string(verif_dir().join("seeds").join("handmade2.txt")).unwrap().split("# ").skip(1).map(|c| c.splitn(2, '\n').nth(1).unwrap_or("").to_string()).collect();
+    let mut out = String::new();
+    for (si, text) in starts.iter().enumerate() {
+        let (mut b, _, _) = match families::board_from_diagram(text) {
+            Ok(x) => x,
+            Err(_) => continue,
+        };
+        for gold in [true, false] {
+            let mut cur = score(&b, gold);
+            loop {
+                let mut best: Option<(usize, usize, usize)> = None;
+                for from in 0..64 {
+                    if b[from] == rm::EMPTY {
+                        continue;
+                    }
+                    for to in 0..64 {
+                        if b[to] != rm::EMPTY {
+                            continue;
+                        }
+                        let mut nb = b;
+                        nb[to] = nb[from];
+                        nb[from] = rm::EMPTY;
+                        let sc = score(&nb, gold);
+                        if sc > cur && best.map_or(true, |x| sc > x.0) {
+                            best = Some((sc, from, to));
+                        }
+                    }
+                }
+                match best {
+                    Some((sc, from, to)) => {
+                        b[to] = b[from];
+                        b[from] = rm::EMPTY;
+                        cur = sc;
+                    }
+                    None => break,
+                }
+            }
+            out.push_str(&format!("# hill-climbed from handmade2 #{} for {} to move: {} actions offered in its busiest early state\n{}", si, if gold { "Gold" } else { "Silver" }, cur, rm::diagram(&b, gold, 10)));
+            println!("start {} {}: {}", si, if gold { "gold" } else { "silver" }, cur);
+        }
+    }
+    std::fs::write(verif_dir().join("seeds").join("maxmobility.txt"), out).unwrap();
 }
